@@ -181,6 +181,9 @@ package shard
 //@   requires [entering_read_write_blobstor_before_write_cache] m == mode.ReadWrite && boundTo(fnval, "(writecache.Cache).SetMode$bound") ==> storageSwitched()
 //@   requires [leaving_read_write_write_cache_before_blobstor] m != mode.ReadWrite && len(components) == 3 && boundTo(fnval, "(*shard.Shard).setModeStorage$bound") ==> cacheSwitched()
 //@   requires [leaving_read_write_blobstor_before_metabase] m != mode.ReadWrite && boundTo(fnval, "(*metabase.DB).SetMode$bound") ==> storageSwitched()
+// (the blob storage's switch re-opens the storage unless the mode the shard reports - the one
+// still in force - is the requested one already: the reported mode changes after the switches)
+//@   requires [blob_storage_switch_compares_with_the_mode_still_in_force] boundTo(fnval, "(*shard.Shard).setModeStorage$bound") ==> s.info.Mode == old(s.info.Mode)
 //@   defines res0 == nil && boundTo(fnval, "(*metabase.DB).SetMode$bound") ==> metabaseSwitched()
 //@   defines res0 == nil && boundTo(fnval, "(*shard.Shard).setModeStorage$bound") ==> storageSwitched()
 //@   defines res0 == nil && boundTo(fnval, "(writecache.Cache).SetMode$bound") ==> cacheSwitched()
@@ -194,6 +197,22 @@ package shard
 //@   loop 1 invariant m == mode.ReadWrite ==> (rangeindex >= 0 ==> metabaseSwitched()) && (rangeindex >= 1 ==> storageSwitched())
 //@   loop 1 invariant m != mode.ReadWrite && len(components) == 3 ==> (rangeindex >= 0 ==> cacheSwitched()) && (rangeindex >= 1 ==> storageSwitched())
 //@   loop 1 invariant m != mode.ReadWrite && len(components) == 2 ==> (rangeindex >= 0 ==> storageSwitched())
+
+// ... and that switch, when it reports success for a mode other than the one in force, has
+// re-opened the blob storage (read-only as the mode says: C43's rule on Open below).
+//@ ghost pred blobStorageReopened() bool
+//@ callrule c14_blob_storage_reopen in (*Shard).setModeStorage
+//@   property C14
+//@   callee (common.Storage).Open
+//@   pureeffect
+//@   defines err == nil ==> blobStorageReopened()
+//@ callrule c14_storage_switch_collaborators in (*Shard).setModeStorage
+//@   property C14
+//@   callee (common.Storage).Close, (common.Storage).Init, (mode.Mode).*, fmt.Errorf
+//@   pureeffect
+//@ func (*Shard).setModeStorage
+//@   property C14
+//@   ensures [storage_reopened_unless_the_mode_in_force_is_the_requested_one] err == nil && m != old(s.info.Mode) ==> blobStorageReopened()
 
 // ---- C43: the reported mode changes only when every component switched.
 //@ ghost pred allComponentsSwitched() bool
